@@ -254,7 +254,7 @@ def mechanism(stack):
     """first psd_tools frame that is not in utils (module.function), for signatures"""
     for fr in stack or []:
         mod_fn = fr.rsplit(":", 1)[0]
-        if not mod_fn.startswith("utils."):
+        if not mod_fn.startswith(("utils.", "c06_worker.")):      # the counting stream of the worker is not the reader
             return mod_fn
     return (stack[0].rsplit(":", 1)[0] if stack else "unknown")
 
